@@ -260,6 +260,8 @@ pub struct Net {
     pub dgram_sent: [Vec<Vec<u8>>; 2],      // log of datagrams sent by side i
     pub dgram_faults: bool,
     pub contract: Vec<String>,
+    /// transport calls answered with a terminal error (fault, stop, closed stream); see `runaway!`
+    pub terminal_answers: u32,
     pub events: u64,
     enabled: Vec<Ev>,
 }
@@ -774,9 +776,24 @@ pub fn conn(net: &Shared, side: u8) -> SimConn {
     SimConn { net: net.clone(), side }
 }
 
+/// A caller that keeps repeating a call whose answer is final (an error that will never change) without ever
+/// returning is spinning inside one poll, which no step cap can interrupt. Count such answers per connection and
+/// break out with a panic the executors attribute to the caller (marker RUNAWAY). The guard is released first so
+/// that the mutex is not poisoned.
+macro_rules! runaway {
+    ($n:ident, $what:expr) => {{
+        $n.terminal_answers += 1;
+        if $n.terminal_answers > 200_000 {
+            drop($n);
+            panic!("RUNAWAY: {} was answered with the same final error 200000 times (busy loop in the caller)", $what);
+        }
+    }};
+}
+
 fn poll_open(net: &Shared, side: u8, uni: bool, cx: &mut Context<'_>) -> Poll<Result<u64, StreamErrorIncoming>> {
     let mut n = net.lock().unwrap();
-    if let Some(f) = &n.sides[side as usize].fault {
+    if let Some(f) = n.sides[side as usize].fault.clone() {
+        runaway!(n, "poll_open");
         return Poll::Ready(Err(f.to_stream()));
     }
     let st = &mut n.sides[side as usize];
@@ -855,7 +872,8 @@ impl quic::Connection<SimBuf> for SimConn {
             obs::ev("accept_uni", id, 0);
             return Poll::Ready(Ok(SimRecv { net: self.net.clone(), id, side: self.side }));
         }
-        if let Some(f) = &st.fault {
+        if let Some(f) = st.fault.clone() {
+            runaway!(n, "poll_accept_recv");
             return Poll::Ready(Err(f.to_h3()));
         }
         st.accept_uni_waker = Some(cx.waker().clone());
@@ -868,7 +886,8 @@ impl quic::Connection<SimBuf> for SimConn {
             obs::ev("accept_bi", id, 0);
             return Poll::Ready(Ok(mk_bidi(&self.net, id, self.side)));
         }
-        if let Some(f) = &st.fault {
+        if let Some(f) = st.fault.clone() {
+            runaway!(n, "poll_accept_bidi");
             return Poll::Ready(Err(f.to_h3()));
         }
         st.accept_bi_waker = Some(cx.waker().clone());
@@ -890,8 +909,12 @@ impl SimSend {
         while w.has_remaining() {
             {
                 let mut n = net.lock().unwrap();
-                if let Some(f) = &n.sides[side as usize].fault {
+                if let Some(f) = n.sides[side as usize].fault.clone() {
+                    runaway!(n, "a write");
                     return Poll::Ready(Err(f.to_stream()));
+                }
+                if n.dirs.get(&(id, side)).map(|d| d.stop_delivered || d.reset_sent.is_some() || d.fin_sent).unwrap_or(false) {
+                    runaway!(n, "a write on a stopped or closed stream");
                 }
                 let d = n.dirs.get_mut(&(id, side)).unwrap();
                 if d.inject_write_err {
